@@ -392,7 +392,10 @@ func (d *domAn) calleeSpec(x *domFn, call *ssa.Call, m *ssa.Function) *domSpec {
 	base := d.specOf(m)
 	ns := &domSpec{ExactLenParam: base.ExactLenParam, ExactLenField: base.ExactLenField, ExactLenWhy: base.ExactLenWhy,
 		LenDom: map[string][2]int64{}, IntDom: map[string][2]int64{}, NonNil: map[string]bool{}, CallVals: base.CallVals, LookupOK: base.LookupOK, EnvErr: base.EnvErr, Rel: base.Rel,
-		FieldLen: x.spec.FieldLen, FieldInt: x.spec.FieldInt, Fits: x.spec.Fits || base.Fits}
+		FieldLen: x.spec.FieldLen, FieldInt: x.spec.FieldInt, Fits: x.spec.Fits || base.Fits, TreePresent: x.spec.TreePresent}
+	if base.TreePresent != nil {
+		ns.TreePresent = base.TreePresent
+	}
 	for k, v := range base.LenDom {
 		ns.LenDom[k] = v
 	}
@@ -1131,6 +1134,12 @@ func (c *Ctx) c07Totality(r *Report, prefix string) {
 			LenDom: map[string][2]int64{"concatenatedNonce": {1, 512}, "proposal.DiffieHellmanGroup": lists, "proposal.EncryptionAlgorithm": lists,
 				"proposal.IntegrityAlgorithm": lists, "proposal.PseudorandomFunction": lists},
 			NonNil: map[string]bool{"proposal": true},
+			TreePresent: func(t types.Type) string {
+				if k := typeKey(t); k == "*message.Transform" {
+					return "a proposal of the domain lists transforms, not nil entries"
+				}
+				return ""
+			},
 			LookupOK: map[string]string{
 				"github.com/free5gc/ike/security/dh.DecodeTransform":    "the domain's DH groups are registered (C11 registry rules)",
 				"github.com/free5gc/ike/security/encr.DecodeTransform":  "the domain's encryption transforms are registered (C11 registry rules)",
